@@ -50,9 +50,60 @@ def items_of(d):
     return out
 
 
+def global_state():
+    """process-global state a library must leave alone, as comparable text (taken before the import and after use)"""
+    import decimal
+    import locale
+    import logging
+    import os
+    import threading
+    import warnings
+    st = {}
+
+    def ctx(c):
+        return repr((c.prec, c.rounding, c.Emin, c.Emax, c.capitals, getattr(c, "clamp", None),
+                     sorted(str(k) for k, v in c.traps.items() if v)))
+    st["decimal.DefaultContext"] = ctx(decimal.DefaultContext)
+    st["decimal.BasicContext"] = ctx(decimal.BasicContext)
+    st["decimal.ExtendedContext"] = ctx(decimal.ExtendedContext)
+    st["decimal.getcontext"] = ctx(decimal.getcontext())
+    box = []
+    t = threading.Thread(target=lambda: box.append((ctx(decimal.getcontext()),
+                                                    str(decimal.Decimal("0.25").quantize(decimal.Decimal("0.1"))),
+                                                    str(decimal.Decimal(1) / decimal.Decimal(3)))))
+    t.start()
+    t.join()
+    st["fresh-thread decimal context / arithmetic"] = repr(box)
+    st["sys.path"] = repr(list(sys.path))
+    st["warnings.filters"] = repr([(f[0], str(f[2]), f[4]) for f in warnings.filters])
+    st["locale"] = repr(locale.setlocale(locale.LC_ALL))
+    st["recursionlimit"] = repr(sys.getrecursionlimit())
+    st["logging.root"] = repr((logging.root.level, len(logging.root.handlers), logging.raiseExceptions))
+    st["os.environ"] = repr(sorted(os.environ.items()))
+    st["cwd"] = os.getcwd()
+    st["stdio"] = repr((sys.stdout is sys.__stdout__, sys.stderr is sys.__stderr__, sys.stdin is sys.__stdin__))
+    st["excepthook"] = repr((sys.excepthook is sys.__excepthook__, getattr(threading, "excepthook", None) is getattr(threading, "__excepthook__", None)))
+    st["json defaults"] = repr((json.JSONEncoder.item_separator, json.JSONEncoder.key_separator))
+    try:
+        import signal
+        st["signals"] = repr([(n, str(signal.getsignal(getattr(signal, n)))) for n in ("SIGINT", "SIGTERM") if hasattr(signal, n)])
+    except Exception:  # noqa
+        pass
+    try:
+        st["switchinterval"] = repr(sys.getswitchinterval())
+    except AttributeError:
+        pass
+    st["float repr / str mode"] = repr((repr(0.1 + 0.2), "%.1f" % 0.25))
+    return st
+
+
 def main():
     ops = json.load(io.open(sys.argv[1], encoding="utf-8"))
     results = []
+    want_globals = isinstance(ops, dict) and ops.get("globals")
+    if want_globals:
+        before = global_state()
+        ops = ops["ops"]
     try:
         import cvss
         from cvss import CVSS2, CVSS3, CVSS4
@@ -63,6 +114,42 @@ def main():
         print(json.dumps({"import_error": "%s: %s" % (type(e).__name__, e)}))
         return
     cls = {"2": CVSS2, "3": CVSS3, "4": CVSS4}
+    if isinstance(ops, dict):
+        # COLD-START CONCURRENCY: {"threads": n, "switch": seconds, "ops": [...]} - the operations (C / R / S / X only) are
+        # dealt round-robin to n threads released together by a barrier, as the very first use of the package in this process
+        import threading
+        n = int(ops.get("threads", 4))
+        lst = ops["ops"]
+        try:
+            sys.setswitchinterval(float(ops.get("switch", 1e-6)))
+        except AttributeError:
+            sys.setcheckinterval(1)
+        out = [None] * len(lst)
+        gate = threading.Event()
+
+        def work(t):
+            gate.wait()
+            for i in range(t, len(lst), n):
+                sub = []
+                run_ops([lst[i]], sub, cls, parse_cvss_from_text, inter, calc)
+                out[i] = sub[0] if sub else ["no-result"]
+        ths = [threading.Thread(target=work, args=(t,)) for t in range(n)]
+        for th in ths:
+            th.start()
+        gate.set()
+        for th in ths:
+            th.join()
+        print(json.dumps({"results": out, "version": list(sys.version_info[:3])}))
+        return
+    run_ops(ops, results, cls, parse_cvss_from_text, inter, calc)
+    out = {"results": results, "version": list(sys.version_info[:3])}
+    if want_globals:
+        after = global_state()
+        out["globals_changed"] = sorted([k, before.get(k), after.get(k)] for k in set(before) | set(after) if before.get(k) != after.get(k))
+    print(json.dumps(out))
+
+
+def run_ops(ops, results, cls, parse_cvss_from_text, inter, calc):
     for op in ops:
         kind = op[0]
         try:
@@ -150,7 +237,6 @@ def main():
                 results.append(["bad-op"])
         except BaseException as e:  # noqa
             results.append(["probe-raised", errname(e), "%s" % e])
-    print(json.dumps({"results": results, "version": list(sys.version_info[:3])}))
 
 
 if __name__ == "__main__":
